@@ -24,6 +24,8 @@ func propC10(c *Ctx) {
 	c.ruleC10CopyIdentity()
 	c.ruleC10RulesWithBody()
 	c.ruleNextDirectiveRecognised("C10-NEXT-DIRECTIVE") // a PASTE after an implicit Description must be seen
+	// the copies a PASTE makes share the coordinates of the macro body: "same offset" does not mean "same directive"
+	c.rulePositionNeedsFile("C10-POSITION-NEEDS-FILE")
 }
 
 // ruleC10RulesWithBody: the ENUM rules declared inside a macro belong to its body. Wherever the body of a macro taken
